@@ -25,7 +25,8 @@ ASSUMPTIONS = [
     "entries whose operand pattern cannot be written in assembly the parser accepts (5 operands, nameless "
     "register class) are shape-checked and costed but not exercised through a synthesised instruction (counted)",
     "--db-check is run for the models small enough to finish within the tier's budget (its duplicate search is "
-    "quadratic): quick zen1/tx2/n1, thorough all",
+    "quadratic): quick zen1/tx2/n1, thorough 15 models; in addition on generated model files with duplicate forms and "
+    "every combination of missing values",
 ]
 MIN_NONTRIVIAL = {"quick": 2000, "thorough": 2000}
 
@@ -286,6 +287,80 @@ def cli_sample(spec, stats, failures):
                     failures[v.bucket] = failure_record(ID, case, v)
 
 
+def synthetic_dbcheck(spec, stats, failures):
+    """--db-check on generated model files (served from a data directory that precedes the package data): forms with
+    throughput / latency / port pressure missing in every combination, duplicate forms whose copies differ in what
+    they lack, alias-name lists"""
+    import tempfile
+    from hypothesis import strategies as st
+    from lib import synth
+    from lib.core import hyp_search
+    from osaca import utils
+    from osaca.db_interface import sanity_check
+    from osaca.semantics import MachineModel
+
+    d = tempfile.mkdtemp(prefix="verif-c15-data-")
+    utils.DATA_DIRS.insert(0, d)
+    kinds = [{"class": "register", "name": "gpr"}, {"class": "register", "name": "xmm"},
+             {"class": "immediate", "imd": "int"},
+             {"class": "memory", "base": "*", "offset": "*", "index": "*", "scale": "*"}]
+
+    @st.composite
+    def models(draw):
+        forms = []
+        for i in range(draw(st.integers(1, 10))):
+            nm = draw(st.sampled_from(["fa", "fb", "fc", "vfmx", "fd"]))
+            ops = [draw(st.sampled_from(kinds)) for _ in range(draw(st.integers(0, 3)))]
+            f = {"name": nm, "operands": ops,
+                 "throughput": draw(st.sampled_from([1.0, 0.5, None, None])),
+                 "latency": draw(st.sampled_from([1.0, 4.0, None, None])),
+                 "port_pressure": draw(st.sampled_from([[[1, "01"]], [], None]))}
+            forms.append(f)
+            if draw(st.integers(0, 2)) == 0:  # a duplicate of the same form lacking other values
+                g = dict(f, throughput=draw(st.sampled_from([1.0, None])), latency=draw(st.sampled_from([2.0, None])),
+                         port_pressure=draw(st.sampled_from([[[1, "0"]], None])))
+                forms.insert(draw(st.integers(0, len(forms))), g)
+        return forms
+
+    def check(forms):
+        top = synth.arch_model("x86", ["0", "1"], forms)
+        top["arch_code"] = "zen1"
+        with open(os.path.join(d, "zen1.yml"), "w") as fh:
+            fh.write(synth.yaml_doc(top))
+        for f in os.listdir(d):
+            if f.endswith(".pickle"):
+                os.remove(os.path.join(d, f))
+        MachineModel._runtime_cache.clear()
+        out = io.StringIO()
+        guard(sanity_check, "zen1", verbose=False, output_file=out, what="sanity_check")
+        text = out.getvalue()
+        exp = {"throughput": sum(1 for f in forms if f["throughput"] is None),
+               "latency": sum(1 for f in forms if f["latency"] is None),
+               "port pressure": sum(1 for f in forms if f["port_pressure"] is None), "total": len(forms)}
+        got = {}
+        for key in ("throughput", "latency", "port pressure"):
+            m = re.search(r"\((\d+)/(\d+)\) of instruction forms have no %s" % key, text)
+            if not m:
+                raise Violation("dbcheck:format", "--db-check output lacks the %s line" % key, text[:300], None)
+            got[key], got["total"] = int(m.group(1)), int(m.group(2))
+        if got != exp:
+            raise Violation("dbcheck:counts:synthetic", "--db-check counts differ from the numbers present in the "
+                            "model file", got, exp)
+        dup = len(forms) != len({(f["name"], core.case_hash(f["operands"])) for f in forms})
+        return {"nontrivial": dup and sum(exp[k] for k in ("throughput", "latency", "port pressure")) > 0,
+                "classes": ["db-check:synthetic"] + (["db-check:duplicates"] if dup else []), "key": forms,
+                "sample": {"db-check-synthetic": forms[:4], "counts": exp}}
+
+    try:
+        fs = hyp_search(ID, models(), check, stats, seed=spec["seed"], max_examples=spec["n"])
+        for f in fs:
+            failures[f["bucket"]] = f
+    finally:
+        utils.DATA_DIRS.remove(d)
+        import shutil
+        shutil.rmtree(d, ignore_errors=True)
+
+
 def plan(tier, seed):
     shards = []
     big = {"icl": 4, "ivb": 3, "snb": 2, "hsw": 2, "icx": 2, "zen2": 2}
@@ -297,8 +372,10 @@ def plan(tier, seed):
     for g in ([["zen1", "spr", "tx2", "n1"], ["zen4", "hsw", "a64fx", "v2"], ["zen2", "zen3", "m1", "a72"],
                ["icx", "snb", "tsv110"], ["icl"], ["ivb"]]):
         shards.append({"kind": "cli", "models": g, "step": step, "offset": seed})
+    shards.append({"kind": "dbcheck-synthetic", "seed": seed * 1000 + 1500, "n": 60 if tier == "quick" else 1500})
     for a in (["zen1", "tx2", "n1"] if tier == "quick" else ["zen1", "tx2", "n1", "a64fx", "spr", "zen4", "m1",
-                                                              "v2", "tsv110", "a72", "zen3"]):
+                                                              "v2", "tsv110", "a72", "zen3", "snb", "hsw", "zen2",
+                                                              "icx"]):
         shards.append({"kind": "dbcheck", "arch": a})
     return shards
 
@@ -306,6 +383,9 @@ def plan(tier, seed):
 def run_shard(spec):
     stats = Stats()
     failures = {}
+    if spec["kind"] == "dbcheck-synthetic":
+        synthetic_dbcheck(spec, stats, failures)
+        return {"stats": stats.to_dict(), "failures": list(failures.values()), "exhaustive": False}
     if spec["kind"] == "cli":
         cli_sample(spec, stats, failures)
         return {"stats": stats.to_dict(), "failures": list(failures.values()), "exhaustive": spec["step"] == 1}
@@ -330,6 +410,34 @@ def replay(case):
     stats, failures = Stats(), {}
     if "dbcheck" in case:
         db_check_counts(case["dbcheck"])
+        return
+    if isinstance(case, list):
+        st_, fl_ = Stats(), {}
+        # a generated model of the synthetic --db-check part
+        import tempfile
+        from lib import synth
+        from osaca import utils
+        from osaca.db_interface import sanity_check
+        from osaca.semantics import MachineModel
+        d = tempfile.mkdtemp(prefix="verif-c15-data-")
+        utils.DATA_DIRS.insert(0, d)
+        try:
+            top = synth.arch_model("x86", ["0", "1"], case)
+            top["arch_code"] = "zen1"
+            with open(os.path.join(d, "zen1.yml"), "w") as fh:
+                fh.write(synth.yaml_doc(top))
+            MachineModel._runtime_cache.clear()
+            out = io.StringIO()
+            guard(sanity_check, "zen1", verbose=False, output_file=out, what="sanity_check")
+            text = out.getvalue()
+            for key, attr in (("throughput", "throughput"), ("latency", "latency"), ("port pressure", "port_pressure")):
+                m = re.search(r"\((\d+)/(\d+)\) of instruction forms have no %s" % key, text)
+                exp = sum(1 for f in case if f[attr] is None)
+                if not m or int(m.group(1)) != exp:
+                    raise Violation("dbcheck:counts:synthetic", "--db-check count of forms without %s" % key,
+                                    m.group(1) if m else None, exp)
+        finally:
+            utils.DATA_DIRS.remove(d)
         return
     if "cli_kernel" in case:
         from lib import cli
